@@ -64,6 +64,9 @@ def scenarios(tier):
             out.append({'name': f'extent covers every cell[{g[0]}]', 'fn': 'scn_extent_grid', 'kwargs': {'gi': gi}})
     for mi in (0, 3, 8):
         out.append({'name': f'extent covers every face[UGRID {MESH_CONFIGS[mi][0]}]', 'fn': 'scn_extent_mesh', 'kwargs': {'mi': mi}})
+    out.append({'name': 'extent = bounding box of the union of the masked polygons[ShocStandard, no shortcut]', 'fn': 'scn_extent_inherited', 'kwargs': {'conv_name': 'ShocStandard'}})
+    for conv in ('CFGrid2D', 'ShocSimple', 'UGrid'):       # CFGrid1D has its own shortcut: the box of its bounds (axis-aligned grid without holes)
+        out.append({'name': f'overall geometry = union of the masked polygons[{conv}]', 'fn': 'scn_extent_inherited', 'kwargs': {'conv_name': conv, 'check_bounds': False}})
     for conv, kw in (('CFGrid2D', {}), ('ShocSimple', {}), ('CFGrid2D', {'as_coords': False}), ('CFGrid1D', {'min_size': 2}), ('CFGrid2D', {'bounds': True}), ('ShocStandard', {})):
         out.append({'name': f'making polygons / extent does not modify the dataset[{conv} {kw}]', 'fn': 'scn_frame', 'kwargs': {'conv': conv, 'kw': kw}})
     return out
@@ -304,6 +307,39 @@ def scn_extent_grid(c, gi):
                 v.bound((j, i, e))
     for k, (ex, ey) in enumerate(corners):
         _within(c, b, ex, ey, complete, f'corner {k} of a cell that has a polygon')
+
+
+def scn_extent_inherited(c, conv_name, check_bounds=True):
+    """Conventions without a shortcut (Arakawa C / SHOC standard): the reported bounds are the bounding box of the overall geometry, and the
+    overall geometry is the union of exactly the polygons the validity mask selects -- cells without a polygon cannot widen them."""
+    from contracts import base
+    from pyvc.lib.shapely_ import BoundsOf, UnionOf
+    it = new_interp(use=base.POLY_KEYS)
+    ds, conv = inputs.make_convention(it, c, conv_name)
+    polys = base.abstract_polygons(conv)
+    g = expect_ok(c, 'geometry returns', lambda: attr(it, conv, 'geometry'))
+    if check_bounds:
+        b = expect_ok(c, 'bounds returns', lambda: attr(it, conv, 'bounds'))
+        c.check('the reported bounds are the bounding box of the overall geometry itself', isinstance(b, BoundsOf) and b.geom is g)
+    c.check('the overall geometry is the union of an array of polygons', isinstance(g, UnionOf) and hasattr(g.geoms, 'fn'))
+    if not (isinstance(g, UnionOf) and hasattr(g.geoms, 'fn')):
+        raise PathEnd()
+    arr = g.geoms
+    sel = getattr(arr, 'selection', None)
+    c.check('the polygons united are selected from the polygon array with the validity mask', sel is not None)
+    if sel is None:
+        raise PathEnd()
+    n = c.fresh_int('cell')
+    c.assume(n >= 0)
+    c.assume(n < polys.shape[0])
+    c.check('a cell is part of the union iff it has a polygon', s_eq(truthy(sel.keep(n)), mk_bool(z3.Not(polys.hole(n.z)))))
+    k = c.fresh_int('k')
+    c.assume(k >= 0)
+    c.assume(k < arr.shape[0])
+    e = arr.fn((k,))
+    e = core.resolve_maybe(e) if isinstance(e, core.Maybe) else e
+    c.check('entry k of the united array is the polygon of the k-th cell that has one', getattr(e, 'term', None) is not None
+            and mk_bool(e.term == polys.poly(zint(sel.sel(k)))))
 
 
 def scn_extent_mesh(c, mi):
